@@ -297,7 +297,7 @@ def run(oc, tier, seed, model_available, escalate):
 
 def search(seed, tier, hints):
     oc = common.Outcome()
-    run(oc, "thorough", seed + 101010, False, True)
+    run(oc, "quick", seed + 101010, False, True)
     return oc.violations[0] if oc.violations else None
 
 
